@@ -79,7 +79,7 @@ const LIST_SORT: NativeMetaBuilder = NativeMetaBuilder::method("sort", Arity::Fi
   .with_stack();
 
 const LIST_COLLECT: NativeMetaBuilder = NativeMetaBuilder::fun("collect", Arity::Fixed(1))
-  .with_params(&[ParameterBuilder::new("iter", ParameterKind::Object)])
+  .with_params(&[ParameterBuilder::new("iter", ParameterKind::Iter)])
   .with_stack();
 
 pub fn declare_list_class(hooks: &GcHooks, module: Ref<Module>) -> StdResult<()> {
